@@ -517,7 +517,7 @@ theorem blankSlots_spec (rec : Bytes) (hrec : rec.length = 92) (hdec : decodeRec
     have : ∀ L : List (Nat × Lease), L.filter (fun _ => true) = L := by
       intro L; induction L with
       | nil => rfl
-      | cons a t ih => simp [List.filter_cons, ih]
+      | cons a t ih => simp [ih]
     simp [blankSlots, hwf, this]
   | cons i rest ih =>
     intro f hwf his
@@ -532,5 +532,72 @@ theorem blankSlots_spec (rec : Bytes) (hrec : rec.length = 92) (hdec : decodeRec
     apply List.filter_congr
     intro p _
     by_cases hp : p.1 = i <;> simp [hp, Bool.and_comm]
+
+/-! ### `add_lease` keeps every listed lease (C25 `no_backdating`, add path) -/
+
+/-- appending a record in a new extra slot leaves every existing slot readable as before -/
+theorem readLeaseRecord_append (f : File) (hwf : WF f) (rec : Bytes) (hrec : rec.length = 92)
+    (hn : numExtra f + 1 < 2 ^ 32) (j : Nat) (hj : j < 4 + numExtra f) :
+    readLeaseRecord (writeLeaseRecord f (4 + numExtra f) rec) j = readLeaseRecord f j := by
+  obtain ⟨lw, hnum⟩ := writeLeaseRecord_spec f hwf (4 + numExtra f) rec hrec (Nat.le_refl _) (Or.inr hn)
+  rw [if_neg (by omega)] at hnum
+  have hext := lw.ext
+  have hdata := hwf.data_le
+  have hlen := hwf.len_ge
+  rw [readLeaseRecord_eq _ j (by rw [hnum]; omega), readLeaseRecord_eq f j hj]
+  have hoff : offOf (writeLeaseRecord f (4 + numExtra f) rec) j = offOf f j := by
+    unfold offOf; rw [hext]
+  rw [hoff]
+  congr 2
+  have h1 : ¬ (4 + numExtra f < 4) := by omega
+  have h2 : ¬ (4 + numExtra f - 4 < numExtra f) := by omega
+  have h3 : 4 + numExtra f - 4 = numExtra f := by omega
+  have h4 : ¬ (numExtra f < numExtra f) := Nat.lt_irrefl _
+  simp only [writeLeaseRecord, h1, if_false, h3, h4]
+  have hl1 : (pwrite f (extOff f) (packU32 (numExtra f + 1))).length = f.length :=
+    length_pwrite_of_le _ _ _ (by rw [length_packU32]; omega)
+  have hjo : offOf f j + 92 ≤ extOff f ∨ (extOff f + 4 ≤ offOf f j ∧ offOf f j + 92 ≤ extOff f + 4 + numExtra f * 92) := by
+    unfold offOf
+    by_cases hj4 : j < 4
+    · left; simp only [hj4, if_true]; omega
+    · right; simp only [hj4, if_false]
+      have : (j - 4 + 1) * 92 ≤ numExtra f * 92 := Nat.mul_le_mul_right 92 (by omega)
+      omega
+  rw [pread_pwrite_disj _ _ _ _ _ (Or.inl ⟨by omega, by rw [hl1]; omega⟩)]
+  apply pread_pwrite_disj
+  rw [length_packU32]
+  rcases hjo with h | h
+  · left; omega
+  · right; omega
+
+theorem addLease_keeps (f : File) (hwf : WF f) (avail : Nat) (l : Lease) (j : Nat) (x : Lease)
+    (hx : (j, x) ∈ enumerateLeases f) : (j, x) ∈ enumerateLeases (addLease f avail l).1 := by
+  obtain ⟨hj, hread⟩ := mem_enumerateLeases.mp hx
+  unfold addLease
+  split
+  · rename_i i hi
+    have hlt := firstEmptySlot_lt hi
+    have hemp := firstEmptySlot_empty hi
+    have hji : j ≠ i := by
+      intro e; subst e; rw [hemp] at hread; simp at hread
+    obtain ⟨_, hnum⟩ := writeLeaseRecord_spec f hwf i (serMut l) (length_serMut l) (by omega) (Or.inl hlt)
+    rw [if_pos hlt] at hnum
+    apply mem_enumerateLeases.mpr
+    refine ⟨by rw [hnum]; exact hj, ?_⟩
+    rw [readLeaseRecord_write f hwf i hlt _ (length_serMut l) j hj, if_neg hji]
+    exact hread
+  · split
+    · exact hx
+    · split
+      · exact hx
+      · rename_i hn
+        have hn' : numExtra f + 1 < 2 ^ 32 := by omega
+        obtain ⟨_, hnum⟩ := writeLeaseRecord_spec f hwf (4 + numExtra f) (serMut l) (length_serMut l)
+          (Nat.le_refl _) (Or.inr hn')
+        apply mem_enumerateLeases.mpr
+        refine ⟨by rw [show numLeaseSlots f = 4 + numExtra f from rfl, hnum]; split <;> omega, ?_⟩
+        rw [show numLeaseSlots f = 4 + numExtra f from rfl,
+          readLeaseRecord_append f hwf _ (length_serMut l) hn' j hj]
+        exact hread
 
 end Tahoe.Storage.Mutable
